@@ -182,7 +182,7 @@ Qed.
 
 Lemma spawned_map s stars els nc noncoro ecb ccb og :
   spawned s (do_op s (OpMap stars els nc noncoro ecb ccb og))
-    (fun g => mk_mtask (MMap stars) g 0 false els default_w ecb ccb MNotStarted 0 None
+    (fun g => mk_mtask (MMap stars) g 0 [] els default_w ecb ccb MNotStarted 0 None
                        false None nc false 0 false nc).
 Proof.
   cbn [do_op]. pose proof (know_opt_mt s og) as E.
